@@ -151,3 +151,6 @@ import stepvisual as _stepv
 MIR += [q for q in _stepv.MIR if q.name in ('step_visual_d1_t0', 'step_visual_d1_t1_lite', 'step_visual_d0_t1')]
 EXPLANATION += ' A whole VisualSort::predict_with_scene call is also executed from MIR on a symbolic tracker state (props/stepvisual.py: store model with the real worker loop, real builders / Track::add_observation / merge / VisualMetric::{metric, optimize} / VisualVoting / BestFitVoting / SortVoting code; geometry numbers, feature distances, feature packing and Kalman prediction uninterpreted): the decision expected from the symbolic inputs by the rules of the property is compared with the records.'
 ASSUMPTIONS += ['VisualSort predict step: <= 1 detection x <= 1 stored track in the quick tier (thorough 2x1, 1x2), 1-2 stored observations with / without features, previous voting type any; IoU + Euclidean mode; thresholds, confidences, qualities, IoU values and feature distances from small exact grids (quick: a reduced option grid); own-area thresholds 0 (shares not computed); candidate ids random, assumed distinct; fresh Kalman filter round trip exact; workers run when the caller blocks; HashMap iteration in insertion order']
+
+import C07 as _c07
+MIR += [q for q in _c07.MIR if q.name in ('c07_box_initiate_terms',)]   # the state a new track starts from holds the detection's own box (raw angle)
